@@ -9,7 +9,10 @@ from collections import OrderedDict
 import itertools
 
 from ..custom import _custom_observable_builder
-from ..exceptions import AtLeastOnePropertyError, DependentPropertiesError
+from ..exceptions import (
+    AtLeastOnePropertyError, DependentPropertiesError,
+    DuplicateRegistrationError,
+)
 from ..properties import (
     BinaryProperty, BooleanProperty, DictionaryProperty,
     EmbeddedObjectProperty, EnumProperty, ExtensionsProperty, FloatProperty,
@@ -17,6 +20,7 @@ from ..properties import (
     OpenVocabProperty, ReferenceProperty, StringProperty, TimestampProperty,
     TypeProperty,
 )
+from ..registry import class_for_type
 from .base import _Extension, _Observable, _STIXBase21
 from .common import CustomExtension, GranularMarking
 from .vocab import (
@@ -925,6 +929,10 @@ def CustomObservable(type='x-custom-observable', properties=None, id_contrib_pro
                 raise ValueError(
                     "Invalid extension name '%s': must be the id of an "
                     "extension definition" % extension_name,
+                )
+            if class_for_type(extension_name, '2.1', 'extensions'):
+                raise DuplicateRegistrationError(
+                    "Extension", extension_name,
                 )
             cls.with_extension = extension_name
 
